@@ -125,6 +125,23 @@ theorem pyAdd_op (env : Nat → Vec K → Vec K) (a b : Impl K) :
   simp only [pyAdd, opAdd]
   split_ifs <;> exact dAdd_op env _ _
 
+omit [Field K] [DecidableEq K] in
+theorem reflectedFirst_isFn {a b : Impl K} (h : reflectedFirst a b = true) :
+    a.isFn = false ∧ b.isFn = true := by
+  unfold reflectedFirst at h
+  split at h <;> simp_all
+
+theorem pyMul_op (env : Nat → Vec K → Vec K) (a b : Impl K) (hb : FnRan b) :
+    pyMul tables env a (.op b) = opMul a b := by
+  simp only [pyMul]
+  split_ifs with h
+  · obtain ⟨ha, hbf⟩ := reflectedFirst_isFn h
+    have hr := hb hbf
+    unfold dispatchRMul opMul
+    simp [ha, hbf, hr, tables, functionalRMul, operatorRMul, Act.eval, Guard.eval, construct,
+      ctorComp]
+  · exact dMul_op env a b
+
 theorem fnRan_opRMulScal (a : Impl K) (s : K) (h : FnRan a) : FnRan (opRMulScal s a) :=
   fnRan_of_ty (ty_opRMulScal a s h) h
 
